@@ -2,8 +2,11 @@
 
  R1 validation: _format_called_contests raises for a non-empty lhs/rhs intersection and for names outside the modelled
     contests, before the vector exists; the vector assigns lhs_value / rhs_value / fill by membership; it is built at top
-    level by the prediction and the interval function from the caller's lists, for calls (1 / 0 / -1) and for the stop list;
- R2 prediction table (complete, 7 regions x 3 call codes): L => pred' >= +0.005, R => pred' <= -0.005, none => unchanged;
+    level by the prediction and the interval function from the caller's lists, for calls (1 / 0 / -1) and for the stop list
+    (R1.validated: the stop vector too comes from _format_called_contests); R1.always-validated: some validation must run
+    whatever aggregates are requested (today all sites sit under the top-level test: open known finding K3);
+ R2 prediction table (complete, 7 regions x 3 call codes): L => pred' >= +0.005, R => pred' <= -0.005, none => unchanged; the
+    adjusted value is EVALUATED on the region domain whatever idiom the helper uses (mask assignment, np.where, clip);
  R3 bounds table (complete, 7 x 7 regions x 3 call codes x stop): L & !stop => lower' >= 0; R & !stop => upper' <= 0;
     stop & none => lower' <= 0 <= upper'; none & !stop => both unchanged; non-top-level aggregates untouched;
  R4 pass-through: get_estimates forwards the same lhs/rhs lists to the prediction and interval calls, and the stop list to
